@@ -23,6 +23,7 @@ def gen_sequence(rng, length):
     seq = [("atom", i) for i in range(NATOMS)]
     nvals = NATOMS
     mutable = []
+    mchildren = {}
     for _ in range(length):
         def ref():
             r = rng.random()
@@ -36,11 +37,20 @@ def gen_sequence(rng, length):
         if k < 0.35:
             seq.append(("and", [ref() for _ in range(rng.randint(1, 3))], rng.random() < 0.3))
         elif k < 0.65:
-            seq.append(("or", [ref() for _ in range(rng.randint(1, 3))], True, rng.random() < 0.3))
+            if mutable and rng.random() < 0.3:
+                # a read-only disjunction with exactly the children a mutable node has at this moment (the hash-consing
+                # tables must never hand out the mutable node for it: it can still grow)
+                kids = list(mchildren[rng.choice(mutable)])
+                rng.shuffle(kids) if rng.random() < 0.3 else None
+                seq.append(("or", kids, True, False))
+            else:
+                seq.append(("or", [ref() for _ in range(rng.randint(1, 3))], True, rng.random() < 0.3))
         elif k < 0.8:
             # (also created over-full w.r.t. max_arity, which the engine never does but the interface allows)
-            seq.append(("or", [ref() for _ in range(rng.randint(1, 4))], False, False))
+            kids = [ref() for _ in range(rng.randint(1, 4))]
+            seq.append(("or", kids, False, False))
             mutable.append(nvals)
+            mchildren[nvals] = list(kids)
         elif k < 0.95 and mutable:
             m = rng.choice(mutable)
             c = ref()
@@ -48,6 +58,7 @@ def gen_sequence(rng, length):
             if isinstance(c, tuple) and c[0] >= m:
                 c = (rng.randrange(m), c[1])
             seq.append(("disjunct", m, c))
+            mchildren[m].append(c)
         else:
             seq.append(("not", ref()))
         nvals += 1
@@ -154,7 +165,7 @@ def run_sequence(payload):
 
 def run(pid, tier, seed):
     rng = random.Random(seed * 97 + 11)
-    n = 4000 if tier == "thorough" else 500
+    n = 20000 if tier == "thorough" else 3000
     payloads = []
     for i in range(n):
         payloads.append((gen_sequence(rng, rng.randint(2, 7)), OPTION_SETS[i % len(OPTION_SETS)]))
